@@ -440,6 +440,74 @@ def mk_take(maxlen, maxc, two_d):
     return Obligation(f"take[{'2d' if two_d else '1d'},len<={maxlen},chunk<={maxc}]", setup, run)
 
 
+def mk_mixed(maxn, max_none, maxl, dtypes):
+    """one integer-array indexer combined, in ONE index tuple, with integers / slices on the other axes and with None entries at every
+    position; the indexed axis has up to three chunks of size 0..maxl (zero-size chunks, more chunks than elements); the index array's
+    dtype is picked (narrow dtypes cannot represent the axis length). Values end up in NumPy: enumerated by the solver."""
+    OTHER = ((":", ":"), ("i", ":"), (":", "i"), ("i", "i"), ("s", ":"), (":", "r"))
+
+    def setup(e):
+        ax = e.choice("ax", 3)
+        ls = tuple(e.int(f"l{i}", 0, maxl) for i in range(3))
+        dim = ls[0] + ls[1] + ls[2]
+        e.assume(lambda: dim >= 1)
+        n = 1 + e.choice("n", maxn)
+        idx = []
+        for t in range(n):
+            v = e.int(f"v{t}")
+            e.assume(lambda: (v >= -dim) & (v < dim))
+            idx.append(v)
+        other = e.pick("other", OTHER)
+        nn = e.choice("n_none", max_none + 1)
+        pos = []
+        for t in range(nn):
+            q = e.choice(f"none{t}", 4 + t)
+            pos.append(q)
+        dt = e.pick("dtype", dtypes)
+        # layout of the index tuple (known on the path): are the "advanced" items (the list and integers) adjacent?
+        kinds = list(other)
+        kinds.insert(ax, "L")
+        for q in pos:
+            kinds.insert(q, "N")
+        adv = [i for i, k in enumerate(kinds) if k in ("L", "i")]
+        sep = int(adv[-1] - adv[0] + 1 != len(adv))
+        s = e.int("adv_separated", 0, 1)
+        e.assume(lambda: s == sep)
+        return ax, ls, idx, other, tuple(pos), dt
+
+    def run(e, ax, ls, idx, other, pos, dt):
+        import operator
+        import dask.array as da
+        scale = 70 if dt == "int8" else 1        # an axis longer than the narrow index dtype can represent
+        ls = tuple(operator.index(c) * scale for c in ls)
+        idx = [operator.index(v) for v in idx]
+        dim = sum(ls)
+        shape = [3, 3]
+        shape.insert(ax, dim)
+        x = np.arange(int(np.prod(shape))).reshape(shape) * 3 + 1
+        chunks = [(2, 1), (1, 2)]
+        chunks.insert(ax, ls)
+        d = da.from_array(x, chunks=tuple(chunks))
+        items = []
+        for k in other:
+            items.append({":": slice(None), "i": 1, "s": slice(1, None), "r": slice(None, None, -1)}[k])
+        sel = np.array(idx, dtype=dt)
+        items.insert(ax, sel)
+        for q in pos:
+            items.insert(q, None)
+        index = tuple(items)
+        want = x[index]
+        r = d[index]
+        shown = tuple(list(map(int, i)) if isinstance(i, np.ndarray) else i for i in index)
+        e.check(r.shape == want.shape, f"x{shown} (axis chunks {ls}, index dtype {dt}): lazy shape {r.shape}, NumPy {want.shape}")
+        e.check(tuple(sum(c) for c in r.chunks) == r.shape, "lazy chunks do not add up to the lazy shape")
+        got = r.compute(scheduler="sync")
+        e.check(got.shape == want.shape and bool((got == want).all()), f"x{shown} (axis chunks {ls}, index dtype {dt}): dask {got.tolist()} numpy {want.tolist()}")
+        return got.tolist()
+
+    return Obligation(f"take_mixed[len<={maxn},none<={max_none},chunk<={maxl},{'/'.join(dtypes)}]", setup, run)
+
+
 def mk_tuple(ndim, L, maxc):
     """index tuples of up to L items over a `ndim`-d array (2 blocks on axis 0, 1 on the others) from the grammar {None, int, slice(a, None) / slice(None, a), full slice, Ellipsis}:
     lazy output shape/chunks (newaxis positions, dropped integer axes, implicit trailing full slices) against the NumPy rule"""
@@ -589,9 +657,13 @@ def obligations(tier):
         obs.append(mk_tuple(1, 3, 3))
         obs.append(mk_take(3, 2, False))
         obs.append(mk_take(2, 2, True))
+        obs.append(mk_mixed(2, 1, 1, ("int64",)))
+        obs.append(mk_mixed(1, 2, 1, ("int8",)))
     else:
         obs.append(mk_take(5, 3, False))
         obs.append(mk_take(4, 2, True))
+        obs.append(mk_mixed(2, 2, 1, ("int64", "int8")))
+        obs.append(mk_mixed(3, 0, 2, ("int64",)))
         obs.append(mk_tuple(1, 4, 3))
         obs.append(mk_tuple(2, 4, 2))
         obs.append(mk_tuple(3, 4, 2))
